@@ -148,3 +148,14 @@ Qed.
 (* the hypotheses are satisfiable: Simpson with 5 points integrates x^2 to 2/3 *)
 Example simpson_5_x2 : rsum 5 (fun k => wts_Simpson 5 k * pts_Simpson 5 k ^ 2) = 2 / 3.
 Proof. rewrite (simpson_exact_lemma 5 2) by (try reflexivity; lia). unfold mono_int. simpl. lra. Qed.
+
+(* ---------------------------------------------------------------- 1. Newton-Cotes *)
+Lemma newton_cotes_exact_thm :
+  (forall n d, (2 <= n)%nat -> (d <= 1)%nat ->
+     rsum n (fun k => wts_Trapezoidal n k * pts_Trapezoidal n k ^ d) = mono_int d) /\
+  (forall n d, (1 <= n)%nat -> (d <= 1)%nat ->
+     rsum n (fun k => wts_MidPoint n k * pts_MidPoint n k ^ d) = mono_int d) /\
+  (forall n d, (3 <= n)%nat -> Nat.odd n = true -> (d <= 3)%nat ->
+     rsum n (fun k => wts_Simpson n k * pts_Simpson n k ^ d) = mono_int d).
+Proof. split; [exact trapezoid_exact_lemma|split; [exact midpoint_exact_lemma|exact simpson_exact_lemma]]. Qed.
+
